@@ -9,6 +9,7 @@ mod parallel;
 mod sched;
 mod stores;
 mod solverfuzz;
+mod ddfuzz;
 
 fn main() {
     let args: Vec<String> = std::env::args().collect();
@@ -24,6 +25,7 @@ fn main() {
         "nodup_fringe_fuzz" => fringe::fuzz(&rest, true),
         "simple_fringe_fuzz" => fringe::fuzz(&rest, false),
         "par_abort_bounds" => parallel::replay_abort_bounds(&rest),
+        "dd_fuzz" => ddfuzz::fuzz(&rest),
         "solver_fuzz" => solverfuzz::fuzz(&rest),
         "cache_fuzz" => stores::cache_fuzz(&rest),
         "dominance_fuzz" => stores::dominance_fuzz(&rest),
